@@ -36,6 +36,7 @@ pub fn prop() -> HistProp {
         mk: |_, _, _| Box::new(C07 { ledger: BTreeMap::new(), paid: BTreeMap::new(), nontrivial: false }),
         extra: None,
         many_batches: 2,
+        zero_arrival: 1,
     }
 }
 
@@ -132,6 +133,18 @@ impl Checker for C07 {
                 };
                 let (db, ds) = (tb1.saturating_sub(tb0), ts1.saturating_sub(ts0));
                 let ok = if *st { db == 0 && ds == *amount } else { ds == 0 && db <= *amount };
+                // "less the peg fee": no fee at or above the threshold, and never more than amount x fee (C05 bounds it further)
+                if !*st && ok {
+                    let (rb, thr, fee) = (o0.state.bsei_exchange_rate, o0.params.er_threshold, o0.params.peg_recovery_fee);
+                    let least = if rb >= thr { *amount } else { *amount - crate::util::mul_floor(*amount, fee) };
+                    if db < least {
+                        out.fail(v(
+                            "credited-less-than-amount-less-fee",
+                            format!("{}: {} bSei sent at rate {} (threshold {}, fee {}) but only {} credited (at least {} due)", step.desc(), amount, rb, thr, fee, db, least),
+                        ));
+                        return;
+                    }
+                }
                 if !ok || tb1 < tb0 || ts1 < ts0 {
                     out.fail(v(
                         "credited-amount",
